@@ -73,7 +73,9 @@ def evaluate_shard(base, cases, tag):
 
     for c in cases:
         vs_n = coq_pairs(file_pairs(base, c, "neutral")) if c["obs"].get("hfiles") is not None else "None"
-        rows.append("inj_case %d %d %s %s" % (c["id"], c["obs"]["go_verdict"], vs_n, coq_pairs(file_pairs(base, c, "original"))))
+        # history cases are judged against the fresh controller only (the unmodified fixture is a different cluster state)
+        vs_o = "None" if c.get("history") else coq_pairs(file_pairs(base, c, "original"))
+        rows.append("inj_case %d %d %s %s" % (c["id"], c["obs"]["go_verdict"], vs_n, vs_o))
     body += "Definition results : list (list Z) := Eval vm_compute in\n [" + ";\n  ".join(rows) + "].\nPrint results.\n"
     path = os.path.join(C.WORK, "cases", "C06_%s.v" % tag)
     C.write_cases_v(path, body)
@@ -227,6 +229,7 @@ TRUSTED = [
     "the NGINX tokenizer model coq/Lex/Lexer.v, written by hand from ngx_conf_read_token; no nginx binary or source in the sandbox, so it cannot be differentially tested",
     "the template translator harness/overlay/internal/verifh/c06t (text/template/parse + reflect on the data structs -> coq/gen/Templates.v) with its class tables c06/tab/tab.go: trusted to transcribe; mitigated by its round-trip self check on real renderings (every run) and by the fail-closed CUnknown class",
     "the hand transcription of the validator regular expressions in coq/Tmpl/Validators.v: compared with Go's regexp on a corpus on every run (hooks zz_verif_c06.go in internal/configs, internal/k8s, pkg/apis/configuration/validation)",
+    "the controller-level family (histories.go): a referenced Policy replaced by a rejected one through the informer store and the real syncPolicy / getPolicies / createVirtualServerEx (recreate coalesced, recreate seen, update, rejected first); oracle = a fresh controller on the final cluster state",
     "the harness harness/overlay/internal/verifh/c06 and the hook internal/k8s/zz_verif_c06.go (controller assembled as in the unit tests, snippets disabled; real validators, Configuration, create*Ex glue, Configurator, templates; recording nginx.Manager)",
     "the approximation of API-server admission: Ingress rules of k8s.io/kubernetes/pkg/apis/networking/validation transcribed in admission.go; for the CRDs pattern/enum/minLength/maxLength of config/crd/bases/*.yaml (crd.go)",
     "the choice of harmless text: every byte that is structural for the lexer (; { } # quotes backslash $ backquote, control bytes, bytes >= 127) replaced by x, other white space by a space; when the validator rejects that, the fixture's original value",
@@ -264,6 +267,18 @@ def judge(run, bases, cases, rows, verbose=False):
             ar[c["field"]] = ar.get(c["field"], 0) + 1
         if verbose:
             print("  case %d %s %s = %r: tag=%d spec=%d go=%d  %s" % (cid, c["fixture"], c["path"], bytes_of(c["value"]).decode("latin1"), tag, spec, o["go_verdict"], context(base, c)))
+        if c.get("history"):
+            hsig = {"kind": "stale-validation", "field": norm_field(c["field"]), "history": c["history"]}
+            val = bytes_of(c["value"]).decode("latin1")
+            fam["history:%s:tag=%d" % (c["history"], tag)] = fam.get("history:%s:tag=%d" % (c["history"], tag), 0) + 1
+            if not spec or o.get("raw") or (o.get("reject") or "").startswith("history-dependent"):
+                run.failing(hsig, [slim(c)],
+                            "controller history %s: the Policy behind %s was replaced by one with the REJECTED value %r, yet what the controller renders differs from "
+                            "what a fresh controller renders from the same cluster state%s%s: %s"
+                            % (c["history"], c["field"], val, " -- the structure differs" if not spec else "",
+                               " -- the rejected value is in the generated file" if o.get("raw") else "", context(base, c)),
+                            theorem="history independence of validation (Tmpl.C06Cases.spec_ok_file against a fresh controller)")
+            continue
         if spec:
             class_violations(run, "fixture %s/%s, %s = %r" % (c["fixture"], "plus" if c["plus"] else "oss", c["path"], bytes_of(c["value"]).decode("latin1")),
                              o.get("class_violations"), c)
@@ -587,6 +602,9 @@ def check(run):
             for k, v in st.items():
                 tot[k] = tot.get(k, 0) + v
                 pf[k] = pf.get(k, 0) + v
+    hr = [r for r in recs if r["rec"] == "histories"]
+    if hr:
+        run.cov["controller_histories"] = {"runs": hr[0]["runs"], "differing_from_fresh_controller": hr[0]["differing"], "evaluated_in_rocq": hr[0]["emitted"]}
     run.cov["candidates"] = tot
     ctxs = {}
     for s_ in sums:
